@@ -15,7 +15,11 @@ done
 [ -d /tmp/evalverif ] || git -C /verif worktree add -q /tmp/evalverif HEAD
 git -C /tmp/evalrepo checkout -q --detach "$(git -C /repo rev-parse HEAD)" 2>/dev/null
 git -C /tmp/evalrepo checkout -- . ; git -C /tmp/evalrepo clean -fdq -e target
-git -C /tmp/evalverif checkout -q --detach "$(git -C /verif rev-parse HEAD)" 2>/dev/null
+# the checks rewrite tracked evidence files in the scratch copy: discard them, or the checkout of a
+# newer /verif commit is refused and a stale harness would be evaluated
+git -C /tmp/evalverif checkout -q -- . 2>/dev/null
+git -C /tmp/evalverif checkout -q --detach "$(git -C /verif rev-parse HEAD)" || { echo "cannot update /tmp/evalverif"; exit 2; }
+[ "$(git -C /tmp/evalverif rev-parse HEAD)" = "$(git -C /verif rev-parse HEAD)" ] || { echo "/tmp/evalverif is not at /verif HEAD"; exit 2; }
 git -C /tmp/evalrepo apply "$patch" || { echo "patch does not apply"; exit 2; }
 for p in "${props[@]}"; do
   echo "--- $p:"
